@@ -102,7 +102,7 @@ struct Gen {
 			for (int j = 0; j < na; ++j) {
 				if (m == M_ENTRY_GUARD || m == M_EXIT_GUARD) {
 					const int c = rng.weighted({35, guardRequests ? 30 : 0, plans ? 8 : 0, plans ? 6 : 0});
-					if (c == 0) { Action a; a.type = A_CANCEL; e.actions.push_back(a); }
+					if (c == 0) { Action a; a.type = A_CANCEL; e.actions.push_back(a); if (rng.chance(0.15)) e.actions.push_back(a); }
 					else if (c == 1) { e.actions.push_back(requestAction()); if (rng.chance(0.5)) { Action a; a.type = A_CANCEL; e.actions.push_back(a); } }
 					else if (c == 2) e.actions.push_back(statusAction());
 					else e.actions.push_back(planEdit());
@@ -264,12 +264,12 @@ RunPlan generate(uint64_t seed, const std::string& lens, const std::string& shap
 
 	int nOps;
 	switch (r.weighted({40, 40, 20})) { case 0: nOps = r.range(3, 8); break; case 1: nOps = r.range(9, 25); break; default: nOps = r.range(26, 60); break; }
-	if (is("C16") && r.chance(0.15)) nOps = r.range(150, 320);     // long tick runs: activity counters saturate
+	if (is("C16") && r.chance(0.12)) nOps = r.range(280, 560);     // long tick runs (request + update pairs): activity counters saturate
 	const int longRun = nOps > 100;
 	if (manual) { Op o; o.kind = OP_ENTER; g.decorate(o); p.ops.push_back(o); }
 	for (int k = 0; k < nOps; ++k) {
 		Op o;
-		o.kind = uint8_t(longRun && r.chance(0.85) ? OP_UPDATE : r.weighted(w));
+		o.kind = uint8_t(longRun && r.chance(0.85) ? (k % 2 ? OP_UPDATE : OP_REQUEST) : r.weighted(w));
 		switch (o.kind) {
 		case OP_REACT: o.a = int16_t(r.range(0, 1)); break;
 		case OP_REQUEST: o.a = int16_t(g.kind(true)); o.b = int16_t(g.destFor(o.a)); break;
